@@ -484,3 +484,142 @@ Section Toggle.
     - apply bp_toggle_true_large; assumption.
   Qed.
 End Toggle.
+
+(* ---------- constant bitfields ---------- *)
+Lemma bp_nth_error_repeat {A} (a : A) n j : nth_error (repeat a n) j = if (j <? n)%nat then Some a else None.
+Proof.
+  revert j; induction n as [|n IH]; intros [|j]; cbn [repeat nth_error]; try reflexivity.
+  rewrite IH. destruct (Nat.ltb_spec j n), (Nat.ltb_spec (S j) (S n)); try reflexivity; lia.
+Qed.
+
+Lemma bp_all_eq_repeat (rows : list N) v : Forall (fun r => r = v) rows -> rows = repeat v (length rows).
+Proof. induction 1 as [|r rest -> _ IH]; cbn [length repeat]; [reflexivity | f_equal; exact IH]. Qed.
+
+Lemma bp_Forall_repeat {A} (P : A -> Prop) a n : P a -> Forall P (repeat a n).
+Proof. intros H. induction n; cbn [repeat]; constructor; assumption. Qed.
+
+Lemma bp_rows_bits_repeat0 n : rows_bits (repeat 0 n) = 0.
+Proof. induction n as [|n IH]; cbn [repeat rows_bits]; [reflexivity|]. rewrite IH. reflexivity. Qed.
+
+Lemma bp_rows_bits_repeat1 n : rows_bits (repeat MAX64 n) = N.ones (64 * N.of_nat n).
+Proof.
+  apply N.bits_inj. intros i. dm64 i.
+  rewrite bp_rows_bits_testbit by (apply bp_Forall_repeat; reflexivity).
+  rewrite bp_nth_error_repeat. destruct (Nat.ltb_spec (nn (i / 64)) n).
+  - rewrite N.ones_spec_low by (unfold nn in *; lia). rewrite MAX64_ones. apply N.ones_spec_low. assumption.
+  - rewrite N.ones_spec_high by (unfold nn in *; lia). reflexivity.
+Qed.
+
+Lemma bp_count_zeros_repeat1 n : bf_count_zeros (repeat MAX64 n) = 0.
+Proof. induction n as [|n IH]; cbn [repeat bf_count_zeros fold_right]; [reflexivity|]. unfold bf_count_zeros in IH. rewrite IH. reflexivity. Qed.
+
+Lemma bp_count_zeros_repeat0 n : bf_count_zeros (repeat 0 n) = 64 * N.of_nat n.
+Proof.
+  induction n as [|n IH]; cbn [repeat bf_count_zeros fold_right]; [reflexivity|].
+  unfold bf_count_zeros in IH. rewrite IH. change (count_zeros64 0) with 64. lia.
+Qed.
+
+Lemma bp_fill_eq rows v : bf_fill rows v = repeat (if v then MAX64 else 0) (length rows).
+Proof. unfold bf_fill. induction rows as [|r rest IH]; cbn [map length repeat]; [reflexivity | f_equal; exact IH]. Qed.
+
+Lemma bp_toggle_rows_fill n : toggle_rows (repeat 0 n) 0 n false = Some (repeat MAX64 n).
+Proof.
+  destruct (bp_toggle_rows_complete false n (repeat 0 n) 0) as (rows' & T).
+  { intros j Hj. rewrite bp_nth_error_repeat. destruct (Nat.ltb_spec j n); [reflexivity | lia]. }
+  rewrite T. f_equal. apply bp_toggle_rows_some in T. destruct T as (_ & _ & Hn).
+  apply bp_nth_error_ext. intros j. rewrite Hn, !bp_nth_error_repeat.
+  destruct (Nat.leb_spec 0 j), (Nat.ltb_spec j (0 + n)), (Nat.ltb_spec j n); cbn [andb]; try reflexivity; lia.
+Qed.
+
+Section Fill.
+  Variable g : geom.
+  Hypothesis WF : wf_geom g.
+
+  Lemma bp_rows_ok_repeat v : v < W64 -> rows_ok g (repeat v (rows_nat g)).
+  Proof. intros Hv. split; [apply repeat_length | apply bp_Forall_repeat; exact Hv]. Qed.
+
+  Lemma bp_rows_bits_full : rows_bits (repeat MAX64 (rows_nat g)) = N.ones (HF g).
+  Proof. rewrite bp_rows_bits_repeat1, <- (bp_HF_rows_nat g WF). reflexivity. Qed.
+
+  (* partial_put_huge's `toggle(0, ORDER, false)` on the (all zero) bitfield of a whole huge frame *)
+  Lemma bp_toggle_fill rows : rows_ok g rows -> Forall (fun r => r = 0) rows ->
+    bf_toggle g rows 0 (hord g) false = Some (repeat MAX64 (rows_nat g)).
+  Proof.
+    intros (Hl & _) Hz. apply bp_all_eq_repeat in Hz. rewrite Hl in Hz. subst rows.
+    unfold bf_toggle. destruct WF as (H6 & _). destruct (Nat.leb_spec (hord g) 6) as [Hle|Hgt].
+    - assert (E : hord g = 6%nat) by lia. unfold rows_nat. rewrite E. reflexivity.
+    - rewrite N.div_0_l by discriminate. rewrite N.mod_0_l by (apply bp_ROWS_nz; exact WF).
+      apply bp_toggle_rows_fill.
+  Qed.
+End Fill.
+
+(* ---------- bf_set ---------- *)
+Lemma bp_mask64_lt b o : o + b <= 64 -> mask64 b o < W64.
+Proof.
+  intros H. rewrite W64_pow. apply lt_pow2_bits. intros i Hi. rewrite bp_testbit_mask64.
+  destruct (N.leb_spec o i), (N.ltb_spec i (o + b)); cbn [andb]; try reflexivity; lia.
+Qed.
+
+Lemma bp_lor_lt a b : a < W64 -> b < W64 -> N.lor a b < W64.
+Proof. rewrite W64_pow. apply lor_lt_pow2. Qed.
+
+Lemma bp_set_row_lt v s e r x : x < W64 -> bf_set_row v s e r x < W64.
+Proof.
+  intros Hx. unfold bf_set_row.
+  destruct (N.ltb_spec (N.max s (64 * r)) (N.min e (64 * r + 64))) as [H|H]; [|exact Hx].
+  destruct v.
+  - apply bp_lor_lt; [exact Hx|]. apply bp_mask64_lt. lia.
+  - apply bp_land_lt. exact Hx.
+Qed.
+
+Lemma bp_set_row_testbit v s e r x t : t < 64 ->
+  N.testbit (bf_set_row v s e r x) t =
+  if (s <=? 64 * r + t) && (64 * r + t <? e) then v else N.testbit x t.
+Proof.
+  intros Ht. unfold bf_set_row.
+  destruct (N.ltb_spec (N.max s (64 * r)) (N.min e (64 * r + 64))) as [H|H].
+  - assert (Hm : N.testbit (mask64 (N.min e (64 * r + 64) - N.max s (64 * r)) (N.max s (64 * r) - 64 * r)) t
+                 = (s <=? 64 * r + t) && (64 * r + t <? e)).
+    { rewrite bp_testbit_mask64.
+      destruct (N.leb_spec (N.max s (64 * r) - 64 * r) t),
+        (N.ltb_spec t (N.max s (64 * r) - 64 * r + (N.min e (64 * r + 64) - N.max s (64 * r)))),
+        (N.leb_spec s (64 * r + t)), (N.ltb_spec (64 * r + t) e); cbn [andb]; try reflexivity; exfalso; lia. }
+    destruct v.
+    + rewrite N.lor_spec, Hm. destruct ((s <=? 64 * r + t) && (64 * r + t <? e)); [apply orb_true_r | apply orb_false_r].
+    + rewrite N.land_spec, not64_spec, Hm. destruct (N.ltb_spec t 64); [|lia].
+      destruct ((s <=? 64 * r + t) && (64 * r + t <? e)); [apply andb_false_r | apply andb_true_r].
+  - destruct (N.leb_spec s (64 * r + t)), (N.ltb_spec (64 * r + t) e); cbn [andb]; try reflexivity; exfalso; lia.
+Qed.
+
+Lemma bp_set_from_nth v s e : forall rows r j,
+  nth_error (bf_set_from v s e r rows) j = option_map (bf_set_row v s e (r + N.of_nat j)) (nth_error rows j).
+Proof.
+  induction rows as [|x rest IH]; intros r [|j]; cbn [bf_set_from nth_error option_map]; try reflexivity.
+  - rewrite N.add_0_r. reflexivity.
+  - rewrite IH. replace (r + 1 + N.of_nat j) with (r + N.of_nat (S j)) by lia. reflexivity.
+Qed.
+
+Lemma bp_set_length rows s e v : length (bf_set rows s e v) = length rows.
+Proof.
+  unfold bf_set. generalize 0. induction rows as [|x rest IH]; intros r; cbn [bf_set_from length]; [reflexivity|].
+  rewrite IH. reflexivity.
+Qed.
+
+Lemma bp_set_lt rows s e v : Forall (fun r => r < W64) rows -> Forall (fun r => r < W64) (bf_set rows s e v).
+Proof.
+  intros Hf. apply bp_Forall_nth. intros j x Hj. unfold bf_set in Hj. rewrite bp_set_from_nth in Hj.
+  destruct (nth_error rows j) as [y|] eqn:Ey; [|discriminate]. injection Hj as <-.
+  apply bp_set_row_lt. exact (bp_Forall_nth_inv _ _ _ _ Hf Ey).
+Qed.
+
+Lemma bp_set_testbit rows s e v i : Forall (fun r => r < W64) rows -> i < 64 * N.of_nat (length rows) ->
+  N.testbit (rows_bits (bf_set rows s e v)) i =
+  if (s <=? i) && (i <? e) then v else N.testbit (rows_bits rows) i.
+Proof.
+  intros Hf Hi. dm64 i. rewrite !bp_rows_bits_testbit by (try apply bp_set_lt; assumption).
+  unfold bf_set. rewrite bp_set_from_nth.
+  destruct (nth_error rows (nn (i / 64))) as [x|] eqn:Ex.
+  2:{ apply nth_error_None in Ex. unfold nn in Ex. lia. }
+  cbn [option_map]. rewrite bp_set_row_testbit by assumption.
+  replace (64 * (0 + N.of_nat (nn (i / 64))) + i mod 64) with i by (unfold nn; lia). reflexivity.
+Qed.
